@@ -10,7 +10,7 @@ import WpModel.Model.ResourcesDoc
 import WpModel.Props.C20
 
 namespace Wp.C20.Trace
-open Wp Wp.Res
+open Wp Wp.Res Wp.Res.Doc Wp.Res.Svg
 
 /-- Empty, or beginning with a call of the fetcher. -/
 def startsWithCall : List Ev → Prop
@@ -76,7 +76,7 @@ theorem fetch_trace_good {α} (f : Fetched) (url : String) (body : Resp → Exce
 theorem getImage_trace_good (cache : Cache) (fetcher : Fetcher) (opts : Opts) (req : Req) :
     Good (getImage cache fetcher opts req).2.1 := by
   unfold getImage
-  cases hc : cache.find? req.key with
+  cases hc : cache.find? (req.key opts) with
   | some v => exact good_nil
   | none =>
     simp only
@@ -197,36 +197,55 @@ theorem addFontFace_trace_good (fetcher : Fetcher) (st : FontState) (face : Font
   · exact good_nil
   · exact fontLoop_trace_good fetcher face.srcs {} good_nil
 
-/-- Drawing SVG images: `<image>` fetches and direct calls for external `<use>`. -/
-theorem drawSvg_trace_good (fetcher : Fetcher) (opts : Opts) (items : List Doc.SvgItem) (cache : Cache) :
-    Good (Doc.drawSvg fetcher opts cache items).2 := by
+private theorem drawItems_trace_good (fetcher : Fetcher) (opts : Opts) (deeper : Cache → String → Nat → Svg.DrawOut)
+    (hdeeper : ∀ cache key c, Good (deeper cache key c).2.1) (items : List SvgItem) (cache : Cache) :
+    Good (drawItems fetcher opts deeper cache items).2.1 := by
   induction items generalizing cache with
   | nil => exact good_nil
   | cons it rest ih =>
     cases it with
     | useExternal u =>
-      simp only [Doc.drawSvg]
-      have := ih cache
-      exact good_append [.call u] _ ⟨trivial, rfl⟩ this
+      simp only [drawItems]
+      exact good_append [.call u] _ ⟨trivial, rfl⟩ (ih cache)
     | image url =>
-      simp only [Doc.drawSvg]
-      have hg := getImage_trace_good cache fetcher opts ⟨url.getD "None", .fromImage, some "image/*"⟩
-      cases hgi : getImage cache fetcher opts ⟨url.getD "None", .fromImage, some "image/*"⟩ with
-      | mk cache' r =>
-        cases r with
-        | mk evs out =>
-          rw [hgi] at hg
-          cases out with
-          | error e => exact hg
-          | ok v => exact good_append _ _ hg (ih cache')
+      cases url with
+      | none => simp only [drawItems]; exact ih cache
+      | some url =>
+        simp only [drawItems]
+        split
+        · exact ih cache
+        · have hg := getImage_trace_good cache fetcher opts ⟨url, .fromImage, some "image/*"⟩
+          split
+          · rename_i c' evs e hgi
+            rw [hgi] at hg; exact hg
+          · rename_i c' evs c hgi
+            rw [hgi] at hg
+            exact good_append _ _ (good_append _ _ hg (hdeeper _ _ _)) (ih _)
+          · rename_i c' evs v hne hgi
+            rw [hgi] at hg
+            exact good_append _ _ hg (ih _)
 
-theorem paintSvgs_trace_good (fetcher : Fetcher) (opts : Opts) (info : List (Nat × List Doc.SvgItem)) (cs : List Nat)
-    (cache : Cache) : Good (Doc.paintSvgs fetcher opts info cache cs).2 := by
+/-- Every trace of a nested SVG drawing — any depth, any cycle, any failure — is a sequence of
+`call [body [close]]` fetches: the verified trace checker accepts it. -/
+theorem drawObject_trace_good (fetcher : Fetcher) (opts : Opts) (info : List (Nat × List SvgItem)) (fuel : Nat)
+    (drawing : List String) (cache : Cache) (key : String) (c : Nat) :
+    Good (drawObject fetcher opts info fuel drawing cache key c).2.1 := by
+  induction fuel generalizing drawing cache key c with
+  | zero => exact good_nil
+  | succ fuel ih =>
+    simp only [drawObject]
+    split
+    · exact good_nil
+    · exact drawItems_trace_good fetcher opts _ (fun cache' key' c' => ih _ cache' key' c') _ cache
+
+theorem paintSvgs_trace_good (fetcher : Fetcher) (opts : Opts) (info : List (Nat × List Doc.SvgItem))
+    (cs : List (String × Nat)) (cache : Cache) : Good (Doc.paintSvgs fetcher opts info cache cs).2 := by
   induction cs generalizing cache with
   | nil => exact good_nil
   | cons c rest ih =>
+    obtain ⟨key, c⟩ := c
     simp only [Doc.paintSvgs]
-    exact good_append _ _ (drawSvg_trace_good _ _ _ _) (ih _)
+    exact good_append _ _ (drawObject_trace_good _ _ _ _ _ _ _ _) (ih _)
 
 /-! ### stylesheets -/
 
@@ -342,7 +361,7 @@ private theorem fetch_calls {α} (f : Fetched) (url : String) (body : Resp → E
 private theorem getImage_calls (cache : Cache) (fetcher : Fetcher) (opts : Opts) (req : Req) (u : String)
     (h : Ev.call u ∈ (getImage cache fetcher opts req).2.1) : u = req.url := by
   unfold getImage at h
-  cases hc : cache.find? req.key with
+  cases hc : cache.find? (req.key opts) with
   | some v => simp [hc] at h
   | none =>
     simp only [hc] at h
@@ -507,38 +526,82 @@ theorem fontLoop_calls_named (fetcher : Fetcher) (srcs : List FontSrc) (acc : Fo
               · right; rw [h']; exact List.mem_cons_self
             · exact widen _ (hlog []) h
 
-theorem drawSvg_calls_named (fetcher : Fetcher) (opts : Opts) (items : List Doc.SvgItem) (cache : Cache) (u : String)
-    (h : Ev.call u ∈ (Doc.drawSvg fetcher opts cache items).2) :
-    Doc.SvgItem.useExternal u ∈ items ∨ ∃ v, Doc.SvgItem.image v ∈ items ∧ u = v.getD "None" := by
+private theorem svg_lookup_mem {α} (l : List (Nat × α)) (k : Nat) (v : α) (h : l.lookup k = some v) : (k, v) ∈ l := by
+  induction l with
+  | nil => simp [List.lookup] at h
+  | cons x xs ih =>
+    obtain ⟨k', v'⟩ := x
+    simp only [List.lookup] at h
+    split at h
+    · rename_i heq
+      have : k = k' := by simpa using heq
+      cases h; subst this; exact List.mem_cons_self
+    · exact List.mem_cons_of_mem _ (ih h)
+
+/-- `u` is the `href` of an `<image>` or the target of an external `<use>` of one of the SVG images. -/
+def namedIn (info : List (Nat × List SvgItem)) (u : String) : Prop :=
+  ∃ e ∈ info, SvgItem.useExternal u ∈ e.2 ∨ SvgItem.image (some u) ∈ e.2
+
+private theorem drawItems_calls_named (fetcher : Fetcher) (opts : Opts) (deeper : Cache → String → Nat → Svg.DrawOut)
+    (P : String → Prop) (hdeeper : ∀ cache key c u, Ev.call u ∈ (deeper cache key c).2.1 → P u)
+    (items : List SvgItem) (hitems : ∀ u, (SvgItem.useExternal u ∈ items ∨ SvgItem.image (some u) ∈ items) → P u)
+    (cache : Cache) (u : String) (h : Ev.call u ∈ (drawItems fetcher opts deeper cache items).2.1) : P u := by
   induction items generalizing cache with
-  | nil => simp [Doc.drawSvg] at h
+  | nil => simp [drawItems] at h
   | cons it rest ih =>
+    have hrest : ∀ u, (SvgItem.useExternal u ∈ rest ∨ SvgItem.image (some u) ∈ rest) → P u := fun u hu =>
+      hitems u (hu.imp (List.mem_cons_of_mem _) (List.mem_cons_of_mem _))
     cases it with
     | useExternal w =>
-      simp only [Doc.drawSvg, List.mem_cons, Ev.call.injEq] at h
+      simp only [drawItems, List.mem_cons, Ev.call.injEq] at h
       rcases h with h | h
-      · left; rw [h]; exact List.mem_cons_self
-      · rcases ih cache h with h' | ⟨v, hv, e⟩
-        · exact Or.inl (List.mem_cons_of_mem _ h')
-        · exact Or.inr ⟨v, List.mem_cons_of_mem _ hv, e⟩
+      · exact hitems u (Or.inl (by rw [h]; exact List.mem_cons_self))
+      · exact ih hrest cache h
     | image url =>
-      simp only [Doc.drawSvg] at h
-      cases hgi : getImage cache fetcher opts ⟨url.getD "None", .fromImage, some "image/*"⟩ with
-      | mk cache' r =>
-        cases r with
-        | mk evs out =>
-          have hev : ∀ w, Ev.call w ∈ evs → w = url.getD "None" := fun w hw =>
-            getImage_calls cache fetcher opts ⟨url.getD "None", .fromImage, some "image/*"⟩ w (by rw [hgi]; exact hw)
-          rw [hgi] at h
-          cases out with
-          | error e => simp only at h; exact Or.inr ⟨url, List.mem_cons_self, hev u h⟩
-          | ok v =>
+      cases url with
+      | none => simp only [drawItems] at h; exact ih hrest cache h
+      | some url =>
+        have hself : P url := hitems url (Or.inr List.mem_cons_self)
+        have hev : ∀ c' evs out, getImage cache fetcher opts ⟨url, .fromImage, some "image/*"⟩ = (c', evs, out) →
+            ∀ w, Ev.call w ∈ evs → w = url := fun c' evs out hgi w hw =>
+          image_calls_only_requested cache fetcher opts ⟨url, .fromImage, some "image/*"⟩ w (by rw [hgi]; exact hw)
+        simp only [drawItems] at h
+        split at h
+        · exact ih hrest cache h
+        · split at h
+          · rename_i c' evs e hgi
             simp only at h
-            rcases List.mem_append.mp h with h | h
-            · exact Or.inr ⟨url, List.mem_cons_self, hev u h⟩
-            · rcases ih cache' h with h' | ⟨v', hv, e⟩
-              · exact Or.inl (List.mem_cons_of_mem _ h')
-              · exact Or.inr ⟨v', List.mem_cons_of_mem _ hv, e⟩
+            rw [hev _ _ _ hgi u h]; exact hself
+          · rename_i c' evs c hgi
+            simp only [List.mem_append] at h
+            rcases h with (h | h) | h
+            · rw [hev _ _ _ hgi u h]; exact hself
+            · exact hdeeper _ _ _ u h
+            · exact ih hrest _ h
+          · rename_i c' evs v hne hgi
+            simp only [List.mem_append] at h
+            rcases h with h | h
+            · rw [hev _ _ _ hgi u h]; exact hself
+            · exact ih hrest _ h
+
+/-- `every_loader_uses_fetcher` (nested SVG images): whatever an SVG drawing asks the fetcher for — at any depth —
+is the `href` of an `<image>` or of an external `<use>` of one of the SVG images involved. -/
+theorem drawObject_calls_named (fetcher : Fetcher) (opts : Opts) (info : List (Nat × List SvgItem)) (fuel : Nat)
+    (drawing : List String) (cache : Cache) (key : String) (c : Nat) (u : String)
+    (h : Ev.call u ∈ (drawObject fetcher opts info fuel drawing cache key c).2.1) : namedIn info u := by
+  induction fuel generalizing drawing cache key c u with
+  | zero => simp [drawObject] at h
+  | succ fuel ih =>
+    simp only [drawObject] at h
+    split at h
+    · simp at h
+    · apply drawItems_calls_named fetcher opts _ (namedIn info) (fun cache' key' c' u' hu' => ih _ cache' key' c' u' hu') _ _ cache u h
+      intro w hw
+      cases hl : info.lookup c with
+      | none => simp [hl] at hw
+      | some items =>
+        simp only [hl, Option.getD_some] at hw
+        exact ⟨(c, items), svg_lookup_mem info c items hl, hw⟩
 
 private theorem mem_log_seq (a b : Out) (e : Ev) (h : e ∈ (a.seq b).log) : e ∈ a.log ∨ e ∈ b.log := by
   unfold Out.seq at h
@@ -731,29 +794,28 @@ private theorem lookup_mem' {α} (l : List (Nat × α)) (k : Nat) (v : α) (h : 
     · exact List.mem_cons_of_mem _ (ih h)
 
 private theorem paintSvgs_calls_named (fetcher : Fetcher) (opts : Opts) (info : List (Nat × List Doc.SvgItem))
-    (cs : List Nat) (cache : Cache) (u : String) (h : Ev.call u ∈ (Doc.paintSvgs fetcher opts info cache cs).2) :
-    ∃ e ∈ info, Doc.SvgItem.useExternal u ∈ e.2 ∨ ∃ v, Doc.SvgItem.image v ∈ e.2 ∧ u = v.getD "None" := by
+    (cs : List (String × Nat)) (cache : Cache) (u : String) (h : Ev.call u ∈ (Doc.paintSvgs fetcher opts info cache cs).2) :
+    namedIn info u := by
   induction cs generalizing cache with
   | nil => simp [Doc.paintSvgs] at h
   | cons c rest ih =>
+    obtain ⟨key, c⟩ := c
     simp only [Doc.paintSvgs] at h
     rcases List.mem_append.mp h with h | h
-    · cases hl : info.lookup c with
-      | none => rw [hl] at h; simp [Doc.drawSvg] at h
-      | some items =>
-        rw [hl] at h
-        have hmem : (c, items) ∈ info := lookup_mem' info c items hl
-        exact ⟨(c, items), hmem, drawSvg_calls_named fetcher opts items cache u h⟩
+    · exact drawObject_calls_named fetcher opts info _ _ cache key c u h
     · exact ih _ h
+
+/-- The URL an element of an SVG image asks for when drawn (an `<image>` without `href` asks for nothing). -/
+def svgItemUrl : Doc.SvgItem → Option String
+  | .useExternal u => some u
+  | .image v => v
 
 /-- Every URL the document names: stylesheet links and `@import`s at any depth, `@font-face` sources,
 image references, attachments, and what the SVG images shown ask for when drawn. -/
 def namedUrls (d : Doc.Document) : List String :=
   styleUrls d.styles ++ (findStylesheets d.device d.styles).fonts.flatMap (fun f => srcUrls f.srcs) ++
   refUrls d.images ++ d.metaAttachments ++ d.annotAttachments ++
-  d.svgInfo.flatMap (fun e => e.2.map (fun it => match it with
-    | .useExternal u => u
-    | .image v => v.getD "None"))
+  d.svgInfo.flatMap (fun e => e.2.filterMap svgItemUrl)
 
 /-- `every_loader_uses_fetcher`, whole pipeline: in `render` and `write_pdf`, every URL handed to the
 caller's fetcher — by any loader, at any stage — is a URL the document names; nothing else is ever
@@ -789,13 +851,11 @@ theorem document_calls_only_named (d : Doc.Document) (u : String)
   have hpaint : ∀ cache cs, Ev.call u ∈ (Doc.paintSvgs d.fetcher d.opts d.svgInfo cache cs).2 → u ∈ namedUrls d := by
     intro cache cs hc
     obtain ⟨e, he, hcase⟩ := paintSvgs_calls_named d.fetcher d.opts d.svgInfo cs cache u hc
-    have : u ∈ d.svgInfo.flatMap (fun e => e.2.map (fun it => match it with
-        | .useExternal u => u
-        | .image v => v.getD "None")) := by
-      simp only [List.mem_flatMap, List.mem_map]
-      rcases hcase with hu | ⟨v, hv, hu⟩
+    have : u ∈ d.svgInfo.flatMap (fun e => e.2.filterMap svgItemUrl) := by
+      simp only [List.mem_flatMap, List.mem_filterMap]
+      rcases hcase with hu | hu
       · exact ⟨e, he, _, hu, rfl⟩
-      · exact ⟨e, he, _, hv, hu.symm⟩
+      · exact ⟨e, he, _, hu, rfl⟩
     simp [namedUrls, this]
   -- each log of the run is (a prefix of) the log of its stage
   have e1 : (Doc.run d).cssLog = (Doc.interp d.fetcher {} (findStylesheets d.device d.styles).acts).1 := by
@@ -814,7 +874,7 @@ theorem document_calls_only_named (d : Doc.Document) (u : String)
     all_goals (intro hx; simp_all)
   have e4 : Ev.call u ∈ (Doc.run d).paintLog →
       Ev.call u ∈ (Doc.paintSvgs d.fetcher d.opts d.svgInfo (Doc.runRefs d.fetcher d.opts [] d.images).2.2.1
-        (d.images.filterMap (Doc.svgOfRef (Doc.runRefs d.fetcher d.opts [] d.images).2.2.1))).2 := by
+        (d.images.filterMap (Doc.svgOfRef d.opts (Doc.runRefs d.fetcher d.opts [] d.images).2.2.1))).2 := by
     simp only [Doc.run]
     repeat' split
     all_goals (intro hx; simp_all)
